@@ -40,6 +40,32 @@ def eval_expr(I, st, env, e, frame):
     if isinstance(e, ast.Call):
         from .calls import eval_call
         return eval_call(I, st, env, e, frame)
+    if isinstance(e, ast.Set):
+        r = eval_expr(I, st, env, ast.copy_location(ast.Tuple(elts=e.elts, ctx=ast.Load()), e), frame)
+        return r        # a set literal of constants is only used for membership tests: order and duplicates are irrelevant
+    if isinstance(e, (ast.DictComp, ast.SetComp)):
+        from .loops import listcomp
+        if isinstance(e, ast.SetComp):
+            fake = ast.copy_location(ast.ListComp(elt=e.elt, generators=e.generators), e)
+            return listcomp(I, st, env, fake, frame)
+        fake = ast.copy_location(ast.ListComp(elt=ast.Tuple(elts=[e.key, e.value], ctx=ast.Load()), generators=e.generators), e)
+        ast.fix_missing_locations(fake)
+        out = []
+        for (s2, v) in listcomp(I, st, env, fake, frame):
+            if isinstance(v, Raised) or not (isinstance(v, Obj) and v.oid in s2.seqs):
+                out.append((s2, v))
+                continue
+            oid = s2.new_oid('dict', 'dictcomp@%s' % frame.fn.name)
+            items = []
+            for el in s2.seqs[v.oid]:
+                if isinstance(el, TupleV) and len(el.elems) == 2:
+                    items = [it for it in items if not (it[0] == 'kv' and vkey(it[1]) == vkey(el.elems[0]))]
+                    items.append(('kv', el.elems[0], el.elems[1]))
+                else:
+                    items.append(('star', getattr(el, 'tag', 'dictcomp')))
+            s2.maps[oid] = tuple(items)
+            out.append((s2, Obj(oid)))
+        return out
     if isinstance(e, (ast.List, ast.Tuple)):
         out = []
         for (s2, vs) in seq_eval(I, st, env, [x.value if isinstance(x, ast.Starred) else x for x in e.elts], frame):
@@ -73,9 +99,32 @@ def eval_expr(I, st, env, e, frame):
             s2.maps[oid] = tuple(('kv', vs[i], vs[n + i]) for i in range(n))
             out.append((s2, Obj(oid)))
         return out
+    if isinstance(e, ast.Compare) and len(e.ops) > 1:
+        # a < b < c  ==  (a < b) and (b < c), operands evaluated once, left to right, short circuit
+        out = []
+        operands = [e.left] + list(e.comparators)
+
+        def chain(s, i, left):
+            if i >= len(e.ops):
+                return [(s, True)]
+            res = []
+            for (s2, right) in I.evalf(s, env, operands[i + 1], frame):
+                if isinstance(right, Raised):
+                    res.append((s2, right))
+                    continue
+                for (s3, b) in compare(I, s2, left, e.ops[i], right, frame, e):
+                    if isinstance(b, Raised) or b is False:
+                        res.append((s3, b))
+                    else:
+                        res.extend(chain(s3, i + 1, right))
+            return res
+        for (s1, first) in I.evalf(st, env, e.left, frame):
+            if isinstance(first, Raised):
+                out.append((s1, first))
+            else:
+                out.extend(chain(s1, 0, first))
+        return out
     if isinstance(e, ast.Compare):
-        if len(e.ops) != 1:
-            raise Unsupported('chained comparison in %s' % frame.qual())
         out = []
         for (s2, vs) in seq_eval(I, st, env, [e.left, e.comparators[0]], frame, forced=True):
             if isinstance(vs, Raised):
